@@ -14,16 +14,16 @@ pub fn check(tier: Tier) -> Check {
             (Tier::Quick, 0) => 7,
             (Tier::Quick, 1) => 5,
             (Tier::Quick, _) => 4,
-            (Tier::Thorough, 0) => 9,
-            (Tier::Thorough, 1) => 8,
-            (Tier::Thorough, 2) => 7,
-            (Tier::Thorough, _) => 6,
+            (Tier::Thorough, 0) => 8,
+            (Tier::Thorough, 1) => 7,
+            (Tier::Thorough, 2) => 6,
+            (Tier::Thorough, _) => 5,
         };
         parts.push(Part::new(
             "C05/ops",
             json!({"depth": d}),
             k,
-            tier.pick(40, 600),
+            tier.pick(40, 400),
         ));
     }
     parts.push(Part::new("C05/wide", json!({"n": 600}), 0, 120));
